@@ -75,13 +75,38 @@ def run(ctx, rep):
     writes = [(bb, s) for bb, i, s in fc.field_writes(None, "sample_state")]
     ret_false = [bb for bb, i, s in m.stmts() if s.kind == "assign" and s.lhs.is_local() and s.lhs.local == 0 and fc.rv_expr(s) == ("const", 0)]
     ret_true = [bb for bb, i, s in m.stmts() if s.kind == "assign" and s.lhs.is_local() and s.lhs.local == 0 and fc.rv_expr(s) == ("const", 1)]
+    def value_if_take(e, tv, d=0):
+        """value of a bool expression when `take` has the value tv (None when it depends on anything else)"""
+        e = E.strip_casts(e)
+        if d > 6:
+            return None
+        if e[0] == "const":
+            return bool(e[1])
+        if e[0] == "un" and e[1] == "Not":
+            v = value_if_take(e[2], tv, d + 1)
+            return None if v is None else (not v)
+        if e[0] in ("param", "local") and cap(e, "take"):
+            return tv
+        if e[0] == "local" and not e[2]:
+            ds = m.whole_defs(e[1])
+            vals = {value_if_take(fc._def_expr(x), tv, d + 1) for x in ds}
+            return vals.pop() if len(vals) == 1 else None
+        return None
+
+    def returns_on(blocks, tv):
+        """set of values the closure can return from the given region when take == tv"""
+        vals = set()
+        for x, i, s in m.stmts():
+            if x in blocks and s.kind == "assign" and s.lhs.is_local() and s.lhs.local == 0:
+                vals.add(value_if_take(fc.rv_expr(s), tv))
+        return vals
     for bb, ce in take_sw:
         rt, rf = m.reachable(ce.true_target, removed_edges=[(bb, ce.false_target)]), m.reachable(ce.false_target, removed_edges=[(bb, ce.true_target)])
-        add("R20b", "take: sample removed (closure returns false)", any(x in rt for x in ret_false) and not any(x in rt for x in ret_true),
+        add("R20b", "take: sample removed (closure returns false)", returns_on(rt, True) == {False},
             "take path does not return false only")
         add("R20b", "take: sample_state not modified", not any(wb in rt for wb, s in writes), "take path writes sample_state")
         okw = any(wb in rf and fc.rv_expr(s)[0] == "adt" and fc.rv_expr(s)[2] == "Read" for wb, s in writes)
-        add("R20b", "read: sample marked Read and kept", okw and any(x in rf for x in ret_true) and not any(x in rf for x in ret_false),
+        add("R20b", "read: sample marked Read and kept", okw and returns_on(rf, False) == {True},
             "read path does not set sample_state = Read and return true")
         # the branch on take happens after the push
         add("R20b", "read/take effect applies only to selected samples", all(bb not in m.reachable(0, removed_blocks=pushes) for bb, _ in take_sw),
@@ -118,11 +143,27 @@ def run(ctx, rep):
     # R20e: Err(BadParameter) exactly for a handle that is not among the reader's known instances
     bp = [bb for bb, i, s in bf.aggregates("DdsError", "BadParameter")]
     okb = False
-    for sb, ce in bf.ces.items():
+    def not_member(ce):
+        """the edge on which the handle is NOT among self.instances: any(..) false, position(..)/find(..).is_some() false, .is_none() true"""
         e0 = E.strip_casts(ce.expr)
-        if E.is_call(e0, "Iterator::any") and e0[2] and E.mentions_field(e0[2][0], "instances") and not E.mentions_field(e0[2][0], "sample_list"):
-            if ce.false_target is not None and bf.only_through(bp, [(sb, ce.false_target)]):
-                okb = True
+        if ce.true_target is None:
+            return None
+        coll, positive = None, True
+        if E.is_call(e0, "Iterator::any") and e0[2]:
+            coll = e0[2][0]
+        elif e0[0] == "call" and e0[1].split("::")[-1] in ("is_some", "is_none") and e0[2]:
+            inner = E.strip_casts(e0[2][0])
+            if E.is_call(inner, "Iterator::position", "Iterator::find", "Iterator::rposition") and inner[2]:
+                coll = inner[2][0]
+                positive = e0[1].endswith("is_some")
+        if coll is None or not E.mentions_field(coll, "instances") or E.mentions_field(coll, "sample_list"):
+            return None
+        return "false" if positive else "true"
+    gm = bf.guards(not_member)
+    if gm and bf.only_through(bp, gm):
+        okb = True
+    for sb, ce in []:
+        pass
     add0("R20e", "Err(BadParameter) only for a handle that is not in the reader's instance list", bool(bp) and okb,
          "BadParameter is not decided on self.instances (a known instance without stored samples must yield NoData, which the next-instance walk relies on)")
     # R20f: absolute_generation_rank = (instance's most recent generation) - (generation recorded with the sample)
